@@ -37,7 +37,7 @@ enum Dmg {
     Trunc(usize),
 }
 
-fn pick_damages(kind: &str, size: usize, n: usize, salt: u64) -> Vec<Dmg> {
+fn pick_damages(kind: &str, size: usize, n: usize, salt: u64, data: &[u8]) -> Vec<Dmg> {
     if size == 0 {
         return vec![];
     }
@@ -66,6 +66,36 @@ fn pick_damages(kind: &str, size: usize, n: usize, salt: u64) -> Vec<Dmg> {
     if kind == "sst" {
         for i in 0..(n / 6).max(2) {
             out.push(Dmg::Trunc((mix(salt ^ 0x77, i as u64) as usize) % size));
+        }
+    }
+    if kind == "wal" {
+        // structure-aware: the record-type byte of a few record headers (7-byte header: crc 4, length 2, type 1;
+        // headers never straddle a 32 KiB block). A type byte that becomes 0 reads as "padding up to the block end".
+        let mut heads: Vec<usize> = Vec::new();
+        let mut off = 0usize;
+        while off + 7 <= data.len() {
+            let left = 32768 - off % 32768;
+            if left < 7 {
+                off += left;
+                continue;
+            }
+            let len = u16::from_be_bytes([data[off + 4], data[off + 5]]) as usize;
+            if data[off + 6] == 0 && len == 0 {
+                break;
+            }
+            heads.push(off);
+            off += 7 + len;
+        }
+        for i in 0..heads.len().min(4) {
+            let h = heads[(mix(salt ^ 0x99, i as u64) as usize) % heads.len()];
+            let t = data[h + 6];
+            out.push(Dmg::Byte(h + 6, 0));
+            for b in 0..3u8 {
+                if t & (1 << b) != 0 {
+                    out.push(Dmg::Flip(h + 6, b));
+                }
+            }
+            out.push(Dmg::Flip(h + 4 + (i % 2), (mix(salt, h as u64) % 8) as u8));
         }
     }
     out
@@ -226,7 +256,7 @@ pub fn run_corrupt_case(case: &CorruptCase, dir: &Path) -> CaseResult {
             continue; // only claimed with full verification enabled
         }
         let data = std::fs::read(path).unwrap_or_default();
-        let dmgs = pick_damages(kind, data.len(), case.per_file as usize, case.salt as u64 ^ hash64(rel));
+        let dmgs = pick_damages(kind, data.len(), case.per_file as usize, case.salt as u64 ^ hash64(rel), &data);
         for d in dmgs {
             n_dmg += 1;
             if !fresh(&work) {
